@@ -25,12 +25,50 @@ class Op:
         return f"{'xgi.' if self.lib else '.'}{self.name}({a})" + (f" #{sorted(self.tags)}" if self.tags else "")
 
 
+class OneShot(list):
+    """Members (or a node list) handed over as a one-shot iterator: materialised as iter(list) at call time, so
+    that the same op record can be applied to several networks. The models see a plain list."""
+
+    def __repr__(self):
+        return f"iter({list.__repr__(self)})"
+
+
+class LiveView:
+    """The network's own live view (net.nodes / net.edges) or a filtered view, resolved at call time."""
+
+    def __init__(self, kind, filt=None):
+        self.kind, self.filt = kind, filt
+
+    def resolve(self, net):
+        v = getattr(net, self.kind)
+        return v if self.filt is None else v.filterby(*self.filt)
+
+    def __repr__(self):
+        return f"<net.{self.kind}" + (f".filterby{self.filt}>" if self.filt else ">")
+
+
+def materialise(x, net):
+    if isinstance(x, OneShot):
+        return iter(list(x))
+    if isinstance(x, LiveView):
+        return x.resolve(net)
+    if isinstance(x, list):
+        return [materialise(y, net) for y in x]
+    if isinstance(x, tuple):
+        return tuple(materialise(y, net) for y in x)
+    if isinstance(x, dict):
+        return {k: materialise(v, net) for k, v in x.items()}
+    return x
+
+
 def apply(op, net):
-    """Invoke the op on the real network.  Generators in args are materialised per call
-    by the op generators (args are plain data), so an op can be applied twice."""
+    """Invoke the op on the real network. Args are plain data (plus the OneShot / LiveView markers, materialised
+    per call), so an op record can be applied twice."""
+    args = materialise(op.args, net)
+    kwargs = materialise(op.kwargs, net)
     if op.lib:
-        return getattr(xgi, op.name)(net, *op.args, **op.kwargs)
-    return getattr(net, op.name)(*op.args, **op.kwargs)
+        return getattr(xgi, op.name)(net, *args, **kwargs)
+    return getattr(net, op.name)(*args, **kwargs)
 
 
 # ---------------------------------------------------------------------------------
@@ -83,6 +121,8 @@ def rand_members(rng, pool, lo=1, hi=4):
 
 def as_container(rng, members):
     r = rng.random()
+    if r < 0.08:
+        return OneShot(members)
     if r < 0.5:
         return list(members)
     if r < 0.75:
@@ -302,6 +342,13 @@ class HGen:
         if ns and rng.random() < 0.2:
             ns.append(ns[0])
             tags.add("dup-id")
+        r = rng.random()
+        if r < 0.04:
+            ns, tags = LiveView("nodes"), {"live-view"}
+        elif r < 0.10:
+            ns, tags = LiveView("nodes", ("degree", rng.randint(0, 2), rng.choice(("eq", "leq")))), {"filtered-view"}
+        elif r < 0.16:
+            ns = OneShot(ns)
         kw = {}
         if rng.random() < 0.5:
             kw["strong"] = rng.random() < 0.6
@@ -323,6 +370,13 @@ class HGen:
         elif es and rng.random() < 0.12:
             es.append(es[0])
             tags.add("dup-id")
+        r = rng.random()
+        if r < 0.04:
+            es, tags = LiveView("edges"), {"live-view"}
+        elif r < 0.10:
+            es, tags = LiveView("edges", ("size", rng.randint(1, 3), rng.choice(("eq", "geq")))), {"filtered-view"}
+        elif r < 0.16:
+            es = OneShot(es)
         return Op("remove_edges_from", (es,), tags=frozenset(tags))
 
     def g_remove_node_from_edge(self):
@@ -655,6 +709,8 @@ class SCGen(HGen):
     def g_remove_nodes_from(self):
         rng = self.rng
         picks = [self.some_node(0.2) for _ in range(rng.randint(0, 3))]
+        if rng.random() < 0.04:
+            return Op("remove_nodes_from", (LiveView("nodes"),), tags=frozenset({"live-view"}))
         return Op("remove_nodes_from", ([p[0] for p in picks],), tags=frozenset({"missing-id"} if any(p[1] for p in picks) else ()))
 
     def g_close(self):
